@@ -45,7 +45,21 @@ def _symbolic(v):
     return type(v).__module__.startswith('crosshair')
 
 
+SPY_SEEN = []
+
+
+def _spy(*args):
+    """a program lambda stand-in that records every non-plain object it is handed"""
+    for a in args:
+        if not is_plain(a):
+            SPY_SEEN.append(type(a).__name__)
+    return 'r'
+
+
+_spy._harness_callable = True
+
 EXTRA_KINDS = {
+    'P': lambda a: _spy,
     'T': lambda a: (3, 'a'),
     'A': lambda a: '__class__',
     'G': lambda a: '{0.__class__.__mro__}',
@@ -53,11 +67,39 @@ EXTRA_KINDS = {
     'Y': lambda a: _L,
 }
 EXTRA_SHAPES = {
-    'reversed': ['T'], 'sorted': ['T', 'LC', 'LY'], 'len': ['T'], 'list': ['T'], 'enumerate': ['T'], 'sum': ['T'], 'min': ['T'], 'max': ['T'],
-    'map': ['LC', 'LY', 'TY'], 'filter': ['LY', 'LC'], 'reduce': ['LY'], 'get': ['DA', 'DG', 'DAC'], '__getitem__': ['DA', 'TZ', 'LA'],
-    'str': ['A', 'C', 'Y', 'T'], 'pretty': ['C', 'A'], 'replace': ['GAA'], 'join': ['T', 'lG'], 'split': ['GA'], 'dict': ['N'], 'index_of': ['TZ'],
-    'startswith': ['GA'], 'lower': ['A'], 'upper': ['G'], 'strip': ['GA'], 'int': ['A'], 'float': ['A'], 'keys': ['D'], 'items': ['D'], 'values': ['D'],
-    'rand': ['T'], 'shuffle': ['T'],
+    'reversed': ['T'],
+    'sorted': ['T', 'LC', 'LY', 'LP', 'DP', 'NP'],
+    'len': ['T'],
+    'list': ['T'],
+    'enumerate': ['T'],
+    'sum': ['T'],
+    'min': ['T'],
+    'max': ['T'],
+    'map': ['LC', 'LY', 'TY', 'LP', 'DP', 'SP', 'NP'],
+    'filter': ['LY', 'LC', 'LP', 'NP'],
+    'reduce': ['LY', 'LP', 'NP'],
+    'get': ['DA', 'DG', 'DAC'],
+    '__getitem__': ['DA', 'TZ', 'LA'],
+    'str': ['A', 'C', 'Y', 'T'],
+    'pretty': ['C', 'A'],
+    'replace': ['GAA', 'SSP', 'SSPZ', 'SSPZS', 'SSSZS'],
+    'match': ['SSP', 'SSS'],
+    'match_all': ['SSS', 'SPS'],
+    'split': ['GA', 'SSZ', 'SSZP'],
+    'join': ['T', 'lG', 'lSP'],
+    'dict': ['N'],
+    'index_of': ['TZ'],
+    'startswith': ['GA'],
+    'lower': ['A'],
+    'upper': ['G'],
+    'strip': ['GA'],
+    'int': ['A'],
+    'float': ['A'],
+    'keys': ['D'],
+    'items': ['D'],
+    'values': ['D'],
+    'rand': ['T'],
+    'shuffle': ['T'],
 }
 
 
@@ -95,13 +137,20 @@ def closure_step(a: int, b: int, c: int, n: int, flag: bool, d1: int, d2: int, d
     saved = functions.random
     functions.random = RandStub([d1, d2, d3], 0.5)
     res, raised = None, None
+    del SPY_SEEN[:]
+    uses_regex = name in ('match', 'match_groups', 'match_all', 'replace', 'split') and 'P' in shape or name.startswith('match')
     try:
         try:
-            res = FUNCTIONS[name](*args)
+            if uses_regex:
+                with hlib.native():           # the regex C engine cannot run under the tracer; these shapes are concrete
+                    res = FUNCTIONS[name](*args)
+            else:
+                res = FUNCTIONS[name](*args)
         except Exception as e:
             raised = e
     finally:
         functions.random = saved
+    assert not SPY_SEEN, "builtin %s handed a program lambda a non-plain object (%s)" % (name, SPY_SEEN[:1])
     if raised is None:
         assert is_plain(res), "builtin %s returned something that is not plain data / a builtin / a lambda: %s" % (name, type(res).__name__)
     for x in args:
@@ -213,4 +262,59 @@ def builtin_on_builtin(j: int, shape: int) -> None:
         ok = raised is not None or is_plain(res)
     assert ok, "builtin %s applied to the builtin %r returned a %s, which is not plain data / a builtin / a lambda" % (
         name, list(FUNCTIONS)[j], type(res).__name__)
+    hlib.done()
+
+
+import sys as _sys
+
+_AUDIT = {"on": False, "events": []}
+_BAD_PREFIXES = ("open", "os.", "socket.", "subprocess.", "import", "exec", "compile", "shutil.", "urllib.", "ctypes.", "tempfile.",
+                 "glob.", "pathlib.", "http.", "ftplib.", "smtplib.", "webbrowser.", "winreg.", "mmap.", "fcntl.", "pty.", "signal.")
+
+
+def _hook(event, args):
+    if _AUDIT["on"] and event.startswith(_BAD_PREFIXES):
+        _AUDIT["events"].append(event + ":" + ",".join(str(a)[:60] for a in args[:2]))
+
+
+_sys.addaudithook(_hook)
+
+IO_TEMPLATES = [
+    "len(zero)", "split(one, one)", "[one] - one", "l | map(v => v / zero)", "int('x')", "u", "1 +", "str(l) + pretty(d)",
+    "match('ab', '(a')", "sorted([one, 's'])", "d['nope']", "x = [1]\nx[5] = 2", "'a' * 2", "one ** 's'", "rand(one, zero)",
+    "l | reduce((p, q) => p + q)", "round(one, 's')", "%a.b.c%", "f = x => f(x)\nf(1)",
+]
+if isinstance(hlib.PARAM, dict) and "io" in hlib.PARAM:
+    pass
+
+
+def api_no_io(a: int, twice: bool) -> None:
+    """
+    pre: True
+    post: True
+    """
+    # no file, process, network, import or dynamic-code activity while a program is parsed and evaluated -- including
+    # on every ERROR path (audit events recorded by a hook armed only around the call; bodies run natively)
+    hlib.enter(locals())
+    text = IO_TEMPLATES[hlib.PARAM["io"]]
+    from sqv.api import PARSER
+    with hlib.native():
+        names = {'zero': 0, 'one': 1, 'l': [1, 2], 'd': {'p': 1}}
+        # warm-up run of a harmless program so that first-use imports of the interpreter itself are not attributed
+        try:
+            PARSER.eval("1 + 1", {})
+        except Exception:
+            pass
+        _AUDIT["events"] = []
+        _AUDIT["on"] = True
+        try:
+            for _ in range(2 if twice else 1):
+                try:
+                    PARSER.eval(text, dict(names), max_ops_evaluated=60)
+                except Exception:
+                    pass
+        finally:
+            _AUDIT["on"] = False
+        events = list(_AUDIT["events"])
+    assert not events, "evaluating %r performed I/O-like activity: %s" % (text, events[:3])
     hlib.done()
